@@ -161,6 +161,8 @@ def run(ctx):
     ctx.add_tlc("Arm model with IK in the middle of histories", r)
     if not r.ok:
         ctx.model_violation("Arm model", r)
+    from vf import armrun
+    armrun.known_probes(ctx)
     mk = c05.makers(ctx)
     _MAKERS = dict(mk)
     per_arm = ctx.pick(12, 400)
